@@ -358,7 +358,8 @@ theorem tryTruncated_spec (a : Dur) (ha : a.Canon) :
     Dur.tryTruncated a ≠ .panic ∧
     (∀ v, Dur.tryTruncated a = .ok v → v = a.val) ∧
     (-2 * NPCs ≤ a.val ∧ a.val ≤ 2 * NPCs → Dur.tryTruncated a = .ok a.val) ∧
-    (fitsI64 a.val = false → Dur.tryTruncated a = .err) := by
+    (fitsI64 a.val = false → Dur.tryTruncated a = .err) ∧
+    (fitsI64 a.val = true → Dur.tryTruncated a = .ok a.val) := by
   obtain ⟨a1, a2, a3, a4⟩ := ha
   unfold Dur.tryTruncated Dur.val valP fitsI64
   simp only [NPC_eq, NPCs_eq] at *
@@ -374,7 +375,7 @@ theorem truncated_spec (a : Dur) (ha : a.Canon) :
   have ht := tryTruncated_spec a ha
   obtain ⟨a1, a2, a3, a4⟩ := ha
   unfold Dur.truncated
-  obtain ⟨t1, t2, t3, t4⟩ := ht
+  obtain ⟨t1, t2, t3, t4, _t5⟩ := ht
   have hsign : a.c < 0 ↔ a.val < 0 := by
     unfold Dur.val valP; simp only [NPC_eq, NPCs_eq] at *; omega
   cases hres : Dur.tryTruncated a with
